@@ -48,6 +48,8 @@ def check_stdio(case: Dict[str, Any]) -> Outcome:
     out = Outcome()
     n, k, order, reads = case["n"], case["burst"], case["order"], case.get("reads", 1)
     results: Dict[int, Tuple[str, Any]] = {}
+    ids: List[Any] = list(case.get("ids") or [f"c{i}" for i in range(n)])
+    batch = case.get("batch")  # the server sends its notifications and answers as JSON-RPC batch arrays (a protocol version that has batches)
 
     async def main():
         procs: List[FakeProcess] = []
@@ -55,10 +57,12 @@ def check_stdio(case: Dict[str, Any]) -> Outcome:
             async with StdioClient(stdio_params()) as client:
                 r, w = client.get_streams()
                 proc = procs[0]
+                if batch:
+                    client.set_protocol_version("2025-03-26")
 
                 async def one(i: int):
                     try:
-                        v = await send_message(r, w, f"m/{i}", {"i": i}, timeout=3.0, message_id=f"c{i}")
+                        v = await send_message(r, w, f"m/{i}", {"i": i}, timeout=3.0, message_id=ids[i])
                         results[i] = ("return", v)
                     except BaseException as e:  # noqa
                         results[i] = ("raise", e)
@@ -69,7 +73,17 @@ def check_stdio(case: Dict[str, Any]) -> Outcome:
                 await asyncio.sleep(0.05)
                 lines = [json.dumps({"jsonrpc": "2.0", "method": "notifications/message", "params": {"level": "info", "data": j}}) for j in range(k)]
                 big = case.get("big")  # the answer of this caller is larger than 64 KiB
-                lines += [json.dumps({"jsonrpc": "2.0", "id": f"c{i}", "result": {"for": f"c{i}", **({"blob": "z" * 70000} if big == i else {})}}) for i in order]
+                answers_ = [json.dumps({"jsonrpc": "2.0", "id": ids[i], "result": {"for": f"c{i}", **({"blob": "z" * 70000} if big == i else {})}}) for i in order]
+                if batch == "front":  # one array: the notifications, then the answers
+                    lines = ["[" + ",".join(lines + answers_) + "]"]
+                elif batch == "middle":  # one array: an answer, the notifications, the other answers
+                    lines = ["[" + ",".join(answers_[:1] + lines + answers_[1:]) + "]"]
+                elif batch == "split":  # two arrays: notifications and the first answer; a notification and the rest
+                    lines = ["[" + ",".join(lines + answers_[:1]) + "]", "[" + ",".join(lines[:1] + answers_[1:]) + "]"]
+                elif batch == "answers-only":
+                    lines = lines + ["[" + ",".join(answers_) + "]"]
+                else:
+                    lines += answers_
                 blob = ("\n".join(lines) + "\n").encode()
                 step = max(1, len(blob) // reads) if not case.get("read_size") else case["read_size"]
                 for a in range(0, len(blob), step):
@@ -86,7 +100,7 @@ def check_stdio(case: Dict[str, Any]) -> Outcome:
         out.fail("stdio-burst-harness-raised", f"{type(e).__name__}: {e}")
         return out
     out.nontrivial = k > 0 or order != sorted(order)
-    out.classes = ("stdio-burst", f"n:{n}", f"burst:{'0' if k == 0 else ('<=100' if k <= 100 else '>100')}") + (("server-closes-output-after-answering",) if case.get("eof") else ()) + (("answer>64KiB-followed-by-small-ones",) if case.get("big") is not None else ())
+    out.classes = ("stdio-burst", f"n:{n}", f"burst:{'0' if k == 0 else ('<=100' if k <= 100 else '>100')}") + (("server-closes-output-after-answering",) if case.get("eof") else ()) + (("answer>64KiB-followed-by-small-ones",) if case.get("big") is not None else ()) + ((f"answers-in-batch-arrays:{batch}",) if batch else ()) + (("ids-differ-only-in-json-type",) if len({str(x) for x in ids}) < len(ids) else ())
     for i in range(n):
         kind, val = results.get(i, ("none", None))
         if kind == "return" and isinstance(val, dict) and val.get("for") == f"c{i}":
@@ -104,7 +118,12 @@ def check(case: Dict[str, Any]) -> Outcome:
     from chuk_mcp.protocol.messages.send_message import send_message
 
     out = Outcome()
+    import json as _json
+
     n = case["n"]
+    # each caller's request id: by default c0, c1 ...; a case may name them (ids that differ only in JSON type)
+    ids: List[Any] = list(case.get("ids") or [f"c{i}" for i in range(n)])
+    idkey = lambda x: _json.dumps(x)  # noqa: E731
     timeouts = [t / 100.0 for t in case["timeouts"]]
     starts = [t / 100.0 for t in case.get("starts", [0] * n)]  # callers may join later (staggered lifetimes)
     answers: List[List[int]] = case["answers"]  # [t_cs, caller]
@@ -120,11 +139,11 @@ def check(case: Dict[str, Any]) -> Outcome:
         form = {"$form": "typed"} if i in typed else {}
         ph = phases[k] if k < len(phases) else 0  # position among the events of that instant (see drive)
         if i in err_for:
-            schedule.append((t / 100.0, {"jsonrpc": "2.0", "id": f"c{i}", "error": {"code": -32000 - i, "message": f"for c{i}"}, **form}, ph))
+            schedule.append((t / 100.0, {"jsonrpc": "2.0", "id": ids[i], "error": {"code": -32000 - i, "message": f"for c{i}"}, **form}, ph))
         elif str(i) in falsy:
-            schedule.append((t / 100.0, {"jsonrpc": "2.0", "id": f"c{i}", "result": FALSY[falsy[str(i)] % len(FALSY)], **form}, ph))
+            schedule.append((t / 100.0, {"jsonrpc": "2.0", "id": ids[i], "result": FALSY[falsy[str(i)] % len(FALSY)], **form}, ph))
         else:
-            schedule.append((t / 100.0, {"jsonrpc": "2.0", "id": f"c{i}", "result": {"for": f"c{i}", "k": k}, **form}, ph))
+            schedule.append((t / 100.0, {"jsonrpc": "2.0", "id": ids[i], "result": {"for": f"c{i}", "k": k}, **form}, ph))
         seq.append((t / 100.0, k, "a"))
     for j, t in enumerate(notifs):
         schedule.append((t / 100.0, {"jsonrpc": "2.0", "method": "notifications/message", "params": {"level": "info", "data": j}}))
@@ -153,7 +172,7 @@ def check(case: Dict[str, Any]) -> Outcome:
                 if starts[i] > 0:
                     await asyncio.sleep(starts[i])
                 kw = {"cancellation_token": tokens[i]} if i in tokens else {}
-                v = await send_message(r, w, f"m/{i}", {"i": i}, timeout=timeouts[i], message_id=f"c{i}", **kw)
+                v = await send_message(r, w, f"m/{i}", {"i": i}, timeout=timeouts[i], message_id=ids[i], **kw)
                 results[i] = ("return", v, loop.time())
             except BaseException as e:  # noqa
                 results[i] = ("raise", e, loop.time())
@@ -179,7 +198,7 @@ def check(case: Dict[str, Any]) -> Outcome:
     if len(ts) >= 2:
         between = any(ts[0] <= x <= ts[-1] for x in notifs)
     out.nontrivial = out_of_order or between
-    out.classes = (f"n:{n}", "out-of-order" if out_of_order else "in-order", "notif-between" if between else "no-notif-between") + (("staggered-starts",) if any(starts) else ()) + (("a-caller-cancelled",) if cancels else ())
+    out.classes = (f"n:{n}", "out-of-order" if out_of_order else "in-order", "notif-between" if between else "no-notif-between") + (("staggered-starts",) if any(starts) else ()) + (("a-caller-cancelled",) if cancels else ()) + (("ids-differ-only-in-json-type",) if len({str(x) for x in ids}) < len(ids) else ()) + (("named-ids",) if case.get("ids") else ())
 
     # who dequeued what
     dequeued_by: Dict[str, List[str]] = {}
@@ -187,7 +206,7 @@ def check(case: Dict[str, Any]) -> Outcome:
         if ev[0] == "recv" and ev[3] is not None:
             w = wire_of(ev[3])
             if isinstance(w, dict) and "method" not in w and "id" in w:
-                dequeued_by.setdefault(str(w["id"]), []).append(ev[2])
+                dequeued_by.setdefault(idkey(w["id"]), []).append(ev[2])
 
     if res.outcome == "hang":
         out.fail("callers-never-finished", f"results={results!r}")
@@ -196,9 +215,9 @@ def check(case: Dict[str, Any]) -> Outcome:
     # all n requests written exactly once
     reqs = [w for _, w in res.written if isinstance(w, dict) and "method" in w and "id" in w]
     # (a caller whose token is cancelled no later than its start never sends anything)
-    optional = {f"c{i_}" for i_, t_ in cancels.items() if t_ / 100.0 <= starts[int(i_)] + 1e-9}
-    ids_written = sorted(str(r["id"]) for r in reqs)
-    if sorted(x for x in ids_written if x not in optional) != sorted(f"c{i}" for i in range(n) if f"c{i}" not in optional) or len(set(ids_written)) != len(ids_written):
+    optional = {idkey(ids[int(i_)]) for i_, t_ in cancels.items() if t_ / 100.0 <= starts[int(i_)] + 1e-9}
+    ids_written = sorted(idkey(r["id"]) for r in reqs)
+    if sorted(x for x in ids_written if x not in optional) != sorted(idkey(ids[i]) for i in range(n) if idkey(ids[i]) not in optional) or len(set(ids_written)) != len(ids_written):
         out.fail("requests-not-written-once-each", repr(reqs))
 
     for i in range(n):
@@ -234,7 +253,7 @@ def check(case: Dict[str, Any]) -> Outcome:
             expect_err = i in err_for and any(ii == i for _, ii in answers)
             got_it = (kind == "return") or (kind == "raise" and not isinstance(val, TimeoutError))
             if not got_it:
-                takers = dequeued_by.get(f"c{i}", [])
+                takers = dequeued_by.get(idkey(ids[i]), [])
                 if takers and all(tk != f"caller{i}" for tk in takers) and all(tk.startswith("caller") for tk in takers):
                     out.fail(
                         "lost-response:consumed-and-discarded-by-peer-waiter",
@@ -329,6 +348,18 @@ def job_exhaustive(col: Collector, seed: int, tier: str, shard: int, nshards: in
                             continue
                         case = {"n": n_, "timeouts": [200] * n_, "answers": [[inst[k], perm[k]] for k in range(n_)], "notifs": [], "cancel": {str(who): tcan}}
                         col.record(case, check(case))
+    # ids the callers name themselves: pairs / triples that differ only in JSON type, or are falsy
+    # (send_message replaces a falsy message_id by a generated one, so 0 and "" cannot be named by a caller)
+    for idset in ([7, "7"], ["7", 7], [-1, "-1"], ["1", 1], [7, "7", 70], ["0", 1, "1"], [1, "1", -1], ["c1", 1, "1"], [2**53 + 1, str(2**53 + 1), "x"]):
+        n_ = len(idset)
+        for perm in itertools.permutations(range(n_)):
+            for inst in ((10, 20, 30), (30, 10, 20), (10, 10, 10), (48, 52, 70), (50, 50, 100)):
+                for typed in ([], list(range(n_))):
+                    i += 1
+                    if i % nshards != shard:
+                        continue
+                    case = {"n": n_, "timeouts": [200] * n_, "answers": [[inst[k], perm[k]] for k in range(n_)], "notifs": [5] if i % 2 else [], "ids": idset, "typed": typed}
+                    col.record(case, check(case))
     # staggered lifetimes: caller 2 joins at t=0.30 after an earlier caller may have completed
     for perm in itertools.permutations(range(3)):
         for inst in itertools.product([10, 20, 40, 60, 90], repeat=3):
@@ -366,6 +397,9 @@ def cases(draw):
     if draw(st.integers(0, 2)) == 0:
         # at most one caller per case gets an empty/falsy (but valid) result, so a mix-up stays visible
         case["falsy"] = {str(draw(st.integers(0, n - 1))): draw(st.integers(0, len(FALSY) - 1))}
+    if draw(st.integers(0, 3)) == 0:
+        # the callers name their ids themselves: integers and strings, some differing only in JSON type, some falsy
+        case["ids"] = list(draw(st.permutations([7, "7", "0", "c1", 1, "1", -1, "-1"])))[:n]
     if draw(st.booleans()):
         starts = [0] + [draw(st.sampled_from([0, 0, 15, 30, 55, 80])) for _ in range(n - 1)]
         case["starts"] = starts
@@ -395,6 +429,22 @@ def job_stdio(col: Collector, seed: int, tier: str) -> None:
                 for read_size in (65536, 16384, 100000):
                     case = {"n": n, "burst": 0, "order": list(order), "reads": 1, "big": big, "read_size": read_size}
                     col.record(case, check(case))
+    # the answers (and notifications) in JSON-RPC batch arrays
+    for n in (2, 3):
+        for order in itertools.permutations(range(n)):
+            for k in (0, 1, 3):
+                for batch in ("front", "middle", "split", "answers-only"):
+                    for ids_ in (None, [7, "7", 70][:n], ["1", 1, "0"][:n]):
+                        case = {"n": n, "burst": k, "order": list(order), "reads": 1 + k % 2, "batch": batch}
+                        if ids_:
+                            case["ids"] = ids_
+                        col.record(case, check(case))
+    for n in (2, 3):
+        for order in itertools.permutations(range(n)):
+            for ids_ in ([7, "7", 70][:n], ["0", "1", 1][:n], ["1", 1, "c1"][:n]):
+                case = {"n": n, "burst": 1, "order": list(order), "reads": 1, "ids": ids_}
+                col.record(case, check(case))
+    col.exhaustive_parts.append("over StdioClient at a batching protocol version: 2 and 3 callers x all answer orders x 4 ways of packing notifications and answers into batch arrays x ids that differ only in JSON type")
     col.exhaustive_parts.append("over StdioClient: 2 and 3 callers x all answer orders x burst of {0,1,50,99,100,101,150,400} notifications ahead of the answers x {1,2,7} pipe reads; one answer of 70 KB with the small ones right behind it, reads of 16 / 64 / 100 KiB")
 
 
